@@ -45,6 +45,14 @@ use vcore::{json, Value};
 
 const PROP: &str = "C17";
 const WATCHDOG: Duration = Duration::from_secs(10);
+/// the client counts as idle (it will request nothing more until a response arrives) when every runtime worker has
+/// been parked and no new request has arrived for this long
+const IDLE: Duration = Duration::from_millis(250);
+/// after this many reconstructions in which the client did not request the gates the plan predicts, the worker stops
+/// gating (responses are released as they arrive): the verdicts come from the output oracle anyway, and a changed
+/// client must not turn the sweep into a sequence of idle waits
+static DEVIATIONS: std::sync::atomic::AtomicUsize = std::sync::atomic::AtomicUsize::new(0);
+const MAX_DEVIATIONS_BEFORE_UNGATED: usize = 12;
 
 // ------------------------------------------------------------------ synthetic xorbs
 
@@ -714,7 +722,7 @@ impl Engine {
                 sh.cv.notify_all();
             });
         }
-        let gate_all = self.conc > 1;
+        let gate_all = self.conc > 1 && DEVIATIONS.load(Ordering::SeqCst) < MAX_DEVIATIONS_BEFORE_UNGATED;
         let expected: BTreeSet<Key> = term_keys.iter().flatten().copied().collect();
         let t0 = Instant::now();
         let mut released: Vec<Key> = vec![];
@@ -736,7 +744,8 @@ impl Engine {
                     last_n = st.pending.len();
                     last_change = Instant::now();
                 }
-                if !have.is_empty() && last_change.elapsed() > Duration::from_secs(3) && self.idle.parked.load(Ordering::SeqCst) == self.idle.workers {
+                if !have.is_empty() && last_change.elapsed() > IDLE && self.idle.parked.load(Ordering::SeqCst) == self.idle.workers {
+                    DEVIATIONS.fetch_add(1, Ordering::SeqCst);
                     machinery = Some(format!("the client went idle having requested the gates {have:?} instead of the expected {expected:?}"));
                     break;
                 }
@@ -766,7 +775,8 @@ impl Engine {
             };
             match choice {
                 None => {
-                    if gate_all && machinery.is_none() && !st.pending.is_empty() && last_event.elapsed() > Duration::from_secs(3) && self.idle.parked.load(Ordering::SeqCst) == self.idle.workers {
+                    if gate_all && machinery.is_none() && !st.pending.is_empty() && last_event.elapsed() > IDLE && self.idle.parked.load(Ordering::SeqCst) == self.idle.workers {
+                        DEVIATIONS.fetch_add(1, Ordering::SeqCst);
                         machinery = Some(format!("the client went idle without requesting the scripted gate {next_scripted:?}; pending {:?}", st.pending.iter().map(|p| p.key).collect::<Vec<_>>()));
                         continue;
                     }
